@@ -64,7 +64,8 @@ OPENERS = [None, op_reset_twice, op_help_then_status, op_blocked,
            gen.OPENERS['partial_merge'], gen.OPENERS['partial_merge'],
            gen.OPENERS['dependency_then_other'],
            gen.OPENERS['conflict_on_later_target'],
-           gen.OPENERS['conflict_on_later_target']]
+           gen.OPENERS['conflict_on_later_target'],
+           gen.OPENERS['queue_conflict']]
 
 
 def plan(tier, seed):
